@@ -214,6 +214,24 @@ func jsonSchemaShapes() []Shape {
 	add("cycle-through-required-field", jsRoot(`{"type":"object","properties":{"next":{"$ref":"#/definitions/Root"}},"required":["next"]}`))
 	add("cycle-mutual-structs-required", jsRoot(`{"type":"object","properties":{"b":{"$ref":"#/definitions/B"}},"required":["b"]}`, `"B":{"type":"object","properties":{"a":{"$ref":"#/definitions/Root"}},"required":["a"]}`))
 	add("cycle-disc-union-self", jsRoot(`{"oneOf":[{"$ref":"#/definitions/S"},{"$ref":"#/definitions/Root"}]}`, jsS))
+	// aliases that are recursive through an array / a map, alone and used in a field
+	for _, rec := range []struct{ name, defs string }{
+		{"array-self", `"A":{"type":"array","items":{"$ref":"#/definitions/A"}}`},
+		{"map-self", `"A":{"type":"object","additionalProperties":{"$ref":"#/definitions/A"}}`},
+		{"array-2", `"A":{"type":"array","items":{"$ref":"#/definitions/B"}},"B":{"type":"array","items":{"$ref":"#/definitions/A"}}`},
+		{"map-2", `"A":{"type":"object","additionalProperties":{"$ref":"#/definitions/B"}},"B":{"type":"object","additionalProperties":{"$ref":"#/definitions/A"}}`},
+		{"array-map", `"A":{"type":"array","items":{"$ref":"#/definitions/B"}},"B":{"type":"object","additionalProperties":{"$ref":"#/definitions/A"}}`},
+		{"array-of-array-self", `"A":{"type":"array","items":{"type":"array","items":{"$ref":"#/definitions/A"}}}`},
+		{"array-through-alias", `"A":{"type":"array","items":{"$ref":"#/definitions/Al"}},"Al":{"$ref":"#/definitions/A"}`},
+		{"array-self-nullable", `"A":{"type":"array","items":{"oneOf":[{"$ref":"#/definitions/A"},{"type":"null"}]}}`},
+	} {
+		add("recursive-alias-"+rec.name+"/field", jsField(`{"$ref":"#/definitions/A"}`, rec.defs))
+		add("recursive-alias-"+rec.name+"/required-field", jsRoot(`{"type":"object","properties":{"f":{"$ref":"#/definitions/A"}},"required":["f"]}`, rec.defs))
+		add("recursive-alias-"+rec.name+"/array-field", jsField(`{"type":"array","items":{"$ref":"#/definitions/A"}}`, rec.defs))
+		add("recursive-alias-"+rec.name+"/map-field", jsField(`{"type":"object","additionalProperties":{"$ref":"#/definitions/A"}}`, rec.defs))
+		add("recursive-alias-"+rec.name+"/union-field", jsField(`{"oneOf":[{"$ref":"#/definitions/A"},{"type":"string"}]}`, rec.defs))
+		add("recursive-alias-"+rec.name+"/root", jsRoot(`{"$ref":"#/definitions/A"}`, rec.defs))
+	}
 	add("alias-chain-to-struct", jsField(`{"$ref":"#/definitions/A1"}`, `"A1":{"$ref":"#/definitions/A2"}`, `"A2":{"$ref":"#/definitions/S"}`, jsS))
 	add("alias-chain-to-enum-with-default", jsField(`{"$ref":"#/definitions/A1","default":"b"}`, `"A1":{"$ref":"#/definitions/E"}`, jsE))
 	raw("ref-to-nowhere", jsDoc(jsField(`{"$ref":"#/definitions/Missing"}`)))
@@ -439,6 +457,17 @@ func openAPIShapes() []Shape {
 	add("cycle-through-allof", root(`{"allOf":[{"$ref":"#/components/schemas/Root"}]}`))
 	add("cycle-through-oneof", root(`{"oneOf":[{"$ref":"#/components/schemas/Root"},{"type":"string"}]}`))
 	add("cycle-through-required-field", root(`{"type":"object","properties":{"next":{"$ref":"#/components/schemas/Root"}},"required":["next"]}`))
+	for _, rec := range []struct{ name, defs string }{
+		{"array-self", `"A":{"type":"array","items":{"$ref":"#/components/schemas/A"}}`},
+		{"map-self", `"A":{"type":"object","additionalProperties":{"$ref":"#/components/schemas/A"}}`},
+		{"array-2", `"A":{"type":"array","items":{"$ref":"#/components/schemas/B"}},"B":{"type":"array","items":{"$ref":"#/components/schemas/A"}}`},
+		{"array-map", `"A":{"type":"array","items":{"$ref":"#/components/schemas/B"}},"B":{"type":"object","additionalProperties":{"$ref":"#/components/schemas/A"}}`},
+	} {
+		add("recursive-alias-"+rec.name+"/field", field(`{"$ref":"#/components/schemas/A"}`, rec.defs))
+		add("recursive-alias-"+rec.name+"/required-field", root(`{"type":"object","properties":{"f":{"$ref":"#/components/schemas/A"}},"required":["f"]}`, rec.defs))
+		add("recursive-alias-"+rec.name+"/array-field", field(`{"type":"array","items":{"$ref":"#/components/schemas/A"}}`, rec.defs))
+		add("recursive-alias-"+rec.name+"/map-field", field(`{"type":"object","additionalProperties":{"$ref":"#/components/schemas/A"}}`, rec.defs))
+	}
 	add("alias-chain", field(`{"$ref":"#/components/schemas/A1"}`, `"A1":{"$ref":"#/components/schemas/A2"}`, `"A2":{"$ref":"#/components/schemas/S"}`, oaS))
 	add("ref-to-nowhere", field(`{"$ref":"#/components/schemas/Missing"}`))
 	add("ref-empty", field(`{"$ref":""}`))
@@ -605,6 +634,17 @@ func cueShapes() []Shape {
 	add("recursive-list", "Root: {children: [...Root]}")
 	add("recursive-disjunction", "Root: string | [...Root]")
 	add("recursive-map", "Root: {[string]: Root}")
+	for _, rec := range []struct{ name, defs string }{
+		{"array-self", "A: [...A]"},
+		{"map-self", "A: {[string]: A}"},
+		{"array-2", "A: [...B]\nB: [...A]"},
+		{"array-map", "A: [...B]\nB: {[string]: A}"},
+	} {
+		add("recursive-alias-"+rec.name+"/field", "Root: {f: A}\n"+rec.defs)
+		add("recursive-alias-"+rec.name+"/optfield", "Root: {f?: A}\n"+rec.defs)
+		add("recursive-alias-"+rec.name+"/array-field", "Root: {f: [...A]}\n"+rec.defs)
+		add("recursive-alias-"+rec.name+"/map-field", "Root: {f: {[string]: A}}\n"+rec.defs)
+	}
 	add("ref-to-nowhere", "Root: {f: Missing}")
 	add("ref-to-import-unused", "import \"strings\"\n\nRoot: {f: string}")
 	add("ref-to-unknown-import", "import \"example.com/nope\"\n\nRoot: {f: nope.X}")
